@@ -221,3 +221,37 @@ def accumulate_sites(fn):
                 continue            # counter of some other object
             out.append((b, i, c, cnt, ('+ ' + cnt) in dst))
     return out
+
+
+def stable_keys(fn):
+    """l-value keys that the function never writes (parameters / fields it only reads): facts on them cannot change along a path"""
+    if getattr(fn, '_written', None) is None:
+        w = set()
+        for b, i, st in fn.stmts():
+            for x in nodes(st):
+                if x['k'] == 'assign':
+                    w.add(K(x['l']))
+                elif x['k'] == 'un' and x['op'] in ('++', '--', '++post', '--post'):
+                    w.add(K(x['e']))
+                elif x['k'] == 'decl':
+                    for v in x['vars']:
+                        w.add(v['name'])
+                elif x['k'] == 'call':
+                    for a in x['args']:
+                        a = strip(a)
+                        if a is not None and a.get('k') == 'un' and a['op'] == '&':
+                            w.add(K(a['e']))
+        fn._written = w
+    return fn._written
+
+
+def feasible(fn, facts):
+    """False when the path facts contain a fact and its negation on a key the function never writes"""
+    written = stable_keys(fn)
+    s = set(facts)
+    for l, op, r in facts:
+        if l in written or '(' in l:
+            continue
+        if op in NEG and (l, NEG[op], r) in s:
+            return False
+    return True
